@@ -10,10 +10,14 @@
 package zzverif
 
 import (
+	"bytes"
 	"crypto/sha256"
+	"encoding/base64"
+	"encoding/hex"
 	"encoding/json"
 	"fmt"
 	"os"
+	"path/filepath"
 	"runtime"
 	"strconv"
 	"sync"
@@ -75,14 +79,14 @@ func value(name string) uint64 {
 	return v
 }
 
-func U8(name string) uint8    { return uint8(value(name)) }
-func U16(name string) uint16  { return uint16(value(name)) }
-func U32(name string) uint32  { return uint32(value(name)) }
-func U64(name string) uint64  { return value(name) }
-func I64(name string) int64   { return int64(value(name)) }
-func Int(name string) int     { return int(int64(value(name))) }
-func Bool(name string) bool   { return value(name) != 0 }
-func Choose(name string, n int) int { return int(value(name)) }
+func U8(name string) uint8            { return uint8(value(name)) }
+func U16(name string) uint16          { return uint16(value(name)) }
+func U32(name string) uint32          { return uint32(value(name)) }
+func U64(name string) uint64          { return value(name) }
+func I64(name string) int64           { return int64(value(name)) }
+func Int(name string) int             { return int(int64(value(name))) }
+func Bool(name string) bool           { return value(name) != 0 }
+func Choose(name string, n int) int   { return int(value(name)) }
 func Len(name string, lo, hi int) int { return int(value(name)) }
 
 func Bytes(name string, n int) []byte {
@@ -171,6 +175,100 @@ func RunUntilCrash(f func()) (crashed bool) {
 func CrashPointsSeen() int { return crashCount }
 func CrashedAt() string    { return crashedAt }
 
+// ---- secrecy (C15) ----
+var secrets [][]byte
+var tempDirs []string
+
+// SecretBytes returns n secret bytes (symbolic "secret.*" inputs under the engine). Natively the value does
+// not matter for a leak, so all-zero replay values are replaced by recognisable pseudo-random bytes.
+func SecretBytes(name string, n int) []byte {
+	out := make([]byte, n)
+	zero := true
+	for i := range out {
+		out[i] = byte(value(fmt.Sprintf("secret.%s[%d]", name, i)))
+		if out[i] != 0 {
+			zero = false
+		}
+	}
+	if zero {
+		seed := sha256.Sum256([]byte("zzsecret:" + name))
+		for i := range out {
+			out[i] = seed[i%32] ^ byte(i/32)
+		}
+		out[0] &= 0x3f // stay below the group order when used as a big-endian scalar
+		if n > 0 {
+			out[n-1] |= 1
+		}
+	}
+	secrets = append(secrets, out)
+	return out
+}
+
+func containsSecret(blob []byte) bool {
+	for _, s := range secrets {
+		if len(s) < 4 {
+			continue
+		}
+		if bytes.Contains(blob, s) || bytes.Contains(blob, []byte(hex.EncodeToString(s))) || bytes.Contains(blob, []byte(base64.StdEncoding.EncodeToString(s))) {
+			return true
+		}
+	}
+	return false
+}
+
+// Observe: v leaves the node; it must not contain a secret (raw, hex or base64).
+func Observe(tag string, v interface{}) {
+	blob := []byte(fmt.Sprintf("%+v|%x", v, v))
+	if j, err := json.Marshal(v); err == nil {
+		blob = append(blob, j...)
+	}
+	Assert("no_secret_in_"+tag, !containsSecret(blob))
+}
+
+func LogsAreClean() bool { return true }
+
+// SecretFilesAreOwnerOnly scans the scratch directories: a file holding a secret must be owner-only.
+func SecretFilesAreOwnerOnly() bool {
+	ok := true
+	for _, d := range tempDirs {
+		filepath.Walk(d, func(p string, info os.FileInfo, err error) error {
+			if err != nil || info.IsDir() {
+				return nil
+			}
+			b, rerr := os.ReadFile(p)
+			if rerr == nil && containsSecret(b) && info.Mode().Perm()&0o077 != 0 {
+				ok = false
+			}
+			return nil
+		})
+	}
+	return ok
+}
+
+func SecretFileCount() int {
+	n := 0
+	for _, d := range tempDirs {
+		filepath.Walk(d, func(p string, info os.FileInfo, err error) error {
+			if err != nil || info.IsDir() {
+				return nil
+			}
+			if b, rerr := os.ReadFile(p); rerr == nil && containsSecret(b) {
+				n++
+			}
+			return nil
+		})
+	}
+	return n
+}
+
+func FileMode(path string) uint32 {
+	st, err := os.Stat(path)
+	if err != nil {
+		return 0xffffffff
+	}
+	return uint32(st.Mode().Perm())
+}
+
 // TempDir returns a scratch directory (a real temporary directory natively, a path in the engine's
 // file-system model otherwise).
 func TempDir(prefix string) string {
@@ -178,6 +276,7 @@ func TempDir(prefix string) string {
 	if err != nil {
 		panic(err)
 	}
+	tempDirs = append(tempDirs, d)
 	return d
 }
 
